@@ -186,6 +186,9 @@ def run_task(task, acc):
         run_cases(acc, gen(), check_case)
     elif kind == "long":
         def gen():
+            xl_track = [list(p) for p in alpha.xl(tuple(RED), 5000, 2)]
+            for r in (None, 1000.0, 111_000.0, 250_000.0):
+                yield dict(track=xl_track, bbox=list(BOXES[1]), range_max=r)
             track = [list(p) for p in alpha.debruijn(tuple(BOXPOS), 2)]  # every ordered pair of positions as a hop, 1297 fixes
             for b in BOXES:
                 for r in (None, 0.0, 1000.0, 111_000.0, 250_000.0, 1e7):
